@@ -298,6 +298,7 @@ Proof.
       * pose proof (inv_fresh _ I) as Hf. rewrite Ef in Hf. exact Hf.
   - (* PeerClose *) destruct (opened s); cbn [fst]; [apply Inv_closed_st|exact I].
   - (* PeerEof *) destruct (opened s); cbn [fst]; [apply Inv_closed_st|exact I].
+  - (* LocalClose *) destruct (opened s); cbn [fst]; [apply Inv_closed_st|exact I].
 Qed.
 
 Lemma run_fst_app : forall es1 es2 s, fst (run cap T30 s (es1 ++ es2)) = fst (run cap T30 (fst (run cap T30 s es1)) es2).
